@@ -36,6 +36,8 @@ import Driver.Toast
 import Driver.Wal
 import Driver.Leaf
 import Driver.Robust
+import Driver.Lru
+import Driver.PageLog
 
 def main (args : List String) : IO UInt32 := do
   let stdin ← IO.getStdin
@@ -79,4 +81,6 @@ def main (args : List String) : IO UInt32 := do
   | ["commit"] => Driver.loop stdin stdout ({} : Driver.Commit.St) Driver.Commit.step; return 0
   | ["catalog"] => Driver.loop stdin stdout () Driver.Catalog.step; return 0
   | ["dec"] => Driver.Dec.run stdin stdout ({} : Driver.Dec.St); return 0
+  | ["lru"] => Driver.loop stdin stdout (TurVerif.Lru.new 8 : TurVerif.Lru.Lru Nat) Driver.Lru.step; return 0
+  | ["pagelog"] => Driver.loop stdin stdout ({} : TurVerif.PageLog.St) Driver.PageLog.step; return 0
   | _ => IO.eprintln "usage: tvmodel <family>"; return 2
